@@ -439,6 +439,40 @@ fn layer3(rep: &Report, env: &Env, flags: &[RFlags]) {
     rep.sample(json!({"layer": 3, "shape": "outer list x spend-list terminator x spend tuple (truncated/extended/atom/pair fields) x condition list (terminator/atom/non-pair condition)"}));
 }
 
+/// messages whose two sides carry the same bytes under different mode bits: a coin whose parent
+/// id equals its puzzle hash sends to itself; the message balances iff the receiver names the
+/// sender by the same mode the sender used (the mode is part of the commitment)
+fn layer2_mode_aliasing(rep: &Report, env: &Env, flags: &[RFlags]) {
+    let mut loc = Local::new();
+    let q: [u8; 32] = [0x77; 32];
+    let msg = Sx::atom(b"alias");
+    for send_src in [0b100u64, 0b010, 0b110, 0b000] {
+        for recv_src in [0b100u64, 0b010, 0b110, 0b000] {
+            for dst in [0b000u64, 0b100, 0b010] {
+                let commit = |m: u64| -> Vec<Sx> {
+                    let mut v = Vec::new();
+                    if m & 4 != 0 {
+                        v.push(Sx::atom(&q));
+                    }
+                    if m & 2 != 0 {
+                        v.push(Sx::atom(&q));
+                    }
+                    v
+                };
+                let mut s_args = vec![Sx::int((send_src << 3) | dst), msg.clone()];
+                s_args.extend(commit(dst));
+                let mut r_args = vec![Sx::int((recv_src << 3) | dst), msg.clone()];
+                r_args.extend(commit(recv_src));
+                let out = output(&[spend(&q, &q, 5, Sx::list(&[cond(66, &s_args), cond(67, &r_args)]))]);
+                for f in flags {
+                    case(rep, &mut loc, env, "L2x", "mode-aliasing", &out, *f);
+                }
+            }
+        }
+    }
+    loc.flush(rep);
+}
+
 /// structured big cases: the 1024 announcement cap and the 6000 spend cap
 fn layer4(rep: &Report, env: &Env) {
     let mut loc = Local::new();
@@ -461,7 +495,7 @@ fn layer4(rep: &Report, env: &Env) {
 
 fn run(rep: &Report) {
     let env = drive::env();
-    rep.set_rule("generator outputs in four layers x flag subsets of {NO_UNKNOWN_CONDS, STRICT_ARGS_COUNT, COST_CONDITIONS} x {EmptyVisitor, MempoolVisitor} (signatures not validated): L1 = one condition: 52 opcode atoms x every argument list of length <= 2 (quick) / <= 3 (thorough) over 27 universal letters x {nil, 01} terminator; L1m = SEND/RECEIVE x all 64 modes + 6 malformed modes x 3 message sizes x type-correct commitment with every single off-type substitution, missing/extra argument; L1i = 13 integer conditions x 17 integer atoms x {no extra arg, extra, nil extra}, CREATE_COIN x 3 puzzle hashes x 17 amounts x 11 memo shapes x tail x terminator, 17 spend amount atoms; L2 = spend A with every ordered list of <= 2 of the interaction letters, alone or with B (child) / C (same puzzle hash) / D (double spend) carrying <= 1 letter; L3 = structural defects at the 5 list positions; L4 = 1023/1024/1025 announcements, 5999/6000/6001 spends with LIMIT_SPENDS. distinct = distinct accepted reference summaries under the empty flag set.");
+    rep.set_rule("generator outputs in four layers x flag subsets of {NO_UNKNOWN_CONDS, STRICT_ARGS_COUNT, COST_CONDITIONS} x {EmptyVisitor, MempoolVisitor} (signatures not validated): L1 = one condition: 52 opcode atoms x every argument list of length <= 2 (quick) / <= 3 (thorough) over 27 universal letters x {nil, 01} terminator; L1m = SEND/RECEIVE x all 64 modes + 6 malformed modes x 3 message sizes x type-correct commitment with every single off-type substitution, missing/extra argument; L1i = 13 integer conditions x 17 integer atoms x {no extra arg, extra, nil extra}, CREATE_COIN x 3 puzzle hashes x 17 amounts x 11 memo shapes x tail x terminator, 17 spend amount atoms; L2 = spend A with every ordered list of <= 2 of the interaction letters, alone or with B (child) / C (same puzzle hash) / D (double spend) carrying <= 1 letter; L2x = a coin with parent id = puzzle hash messaging itself under every pair of source modes (mode bits are part of the commitment); L3 = structural defects at the 5 list positions; L4 = 1023/1024/1025 announcements, 5999/6000/6001 spends with LIMIT_SPENDS. distinct = distinct accepted reference summaries under the empty flag set.");
     rep.assume("reference model mc::refcond implements DESIGN.md Appendix A; valid public keys are exactly the harness's three keys (other 48-byte letters are the infinity encoding and an off-curve string, self-checked at start)");
     rep.assume("only accept/reject, the canonical summary and the condition cost are compared, never error codes");
     let flags = all_rflags(&[false, true], false);
@@ -476,6 +510,7 @@ fn run(rep: &Report) {
     };
     rep.extra("layer2_flag_sets", json!(l2flags.iter().map(|f| rflags_name(*f)).collect::<Vec<_>>()));
     layer2(rep, &env, &l2flags);
+    layer2_mode_aliasing(rep, &env, &flags);
     layer3(rep, &env, &flags);
     layer4(rep, &env);
 }
